@@ -6,6 +6,7 @@ import (
 	"fmt"
 	"os"
 	"runtime/debug"
+	"runtime/pprof"
 	"sort"
 	"strconv"
 	"time"
@@ -36,6 +37,7 @@ func main() {
 		budget := fs.Duration("budget", 0, "override time budget")
 		workers := fs.Int("workers", 0, "override worker count")
 		only := fs.String("only", "", "debug: run only the named part of a check")
+		prof := fs.String("cpuprofile", "", "debug: write a CPU profile")
 		if len(os.Args) < 3 {
 			usage()
 		}
@@ -69,9 +71,19 @@ func main() {
 		onlyPart = *only
 		r.Deadline = r.Start.Add(b)
 		r.Bounds["time_budget_s"] = b.Seconds()
+		if *prof != "" {
+			f, _ := os.Create(*prof)
+			pprof.StartCPUProfile(f)
+			defer pprof.StopCPUProfile()
+		}
 		debug.SetGCPercent(400)
+		startWatchdog(r)
 		cd.fn(r)
-		os.Exit(r.finish())
+		code := r.finish()
+		if *prof != "" {
+			pprof.StopCPUProfile()
+		}
+		os.Exit(code)
 	case "replay":
 		if len(os.Args) < 3 {
 			usage()
